@@ -337,6 +337,17 @@ func runC07(c *Ctx) {
 			b32dec(c, randStr(c, b32alpha+"1", 8+r.Intn(83)))
 		}
 	}
+	// strings carrying another final constant (0, bech32m's 0x2bc830a3, ...) are not BIP173 strings
+	for k := 0; k < c.Pick(60, 600); k++ {
+		hrp := hrps[r.Intn(3)]
+		data := make([]byte, r.Intn(40))
+		for i := range data {
+			data[i] = byte(r.Intn(32))
+		}
+		for _, x := range []int{0, 1, 2, 0x2bc830a3, 0x3fffffff} {
+			b32dec(c, refBech32Const(hrp, data, x))
+		}
+	}
 	// data values >= 32 are refused by Encode
 	b32enc(c, "bc", []byte{0, 31, 32}, 0)
 	b32enc(c, "bc", []byte{255}, 3)
